@@ -143,6 +143,7 @@ pub fn programs() -> Vec<Prog> {
     p.push(Some("end"), Stmt::Named(0x25, "halt"));
     p.push(Some("g"), Stmt::Fill(Lit::hex(0xFFFF)));
     v.push(Prog::new("jump-to-xFFFF", p, true));
+    v.push(shared_return_address());
     v
 }
 
@@ -163,6 +164,48 @@ pub fn linking_jumps() -> Prog {
     p.push(None, Stmt::Br(0b101, "brnp".into(), lbl("loop")));
     p.push(None, Stmt::Jmp(6));
     Prog::new("65536-linking-jumps", p, true)
+}
+
+/// JSR/RET recursion with a hand-made stack whose base case *branches* to the instruction after
+/// the recursive call: control arrives at the call's return address while outer calls have not
+/// returned yet (and once by a branch, not by a return).
+pub fn shared_return_address() -> Prog {
+    shared_return_address_labelled(None, "after")
+}
+
+pub fn shared_return_address_labelled(first: Option<&str>, halt: &str) -> Prog {
+    let mut p = Program::default();
+    p.push(first, Stmt::Mem(PcRel::Lea, 6, lbl("stack")));
+    p.push(None, Stmt::And(0, 0, Src2::Imm(Lit::dec(0))));
+    p.push(None, Stmt::Add(0, 0, Src2::Imm(Lit::dec(2))));
+    p.push(None, Stmt::Jsr(lbl("f")));
+    p.push(Some(halt), Stmt::Named(0x25, "halt"));
+    p.push(Some("f"), Stmt::Add(6, 6, Src2::Imm(Lit::dec(-1))));
+    p.push(None, Stmt::Str(7, 6, Lit::dec(0)));
+    p.push(None, Stmt::Add(0, 0, Src2::Imm(Lit::dec(-1))));
+    p.push(None, Stmt::Br(0b100, "brn".into(), lbl("done")));
+    p.push(Some("site"), Stmt::Jsr(lbl("f")));
+    p.push(Some("done"), Stmt::Ldr(7, 6, Lit::dec(0)));
+    p.push(None, Stmt::Add(6, 6, Src2::Imm(Lit::dec(1))));
+    p.push(None, Stmt::Ret);
+    p.push(None, Stmt::Blkw(Lit::dec(8)));
+    p.push(Some("stack"), Stmt::Fill(Lit::hex(0)));
+    Prog::new("recursion-with-shared-return-address", p, true)
+}
+
+/// CALL/RETS recursion `levels` deep through one call site (for counters of nested calls).
+pub fn deep_recursion(levels: u16) -> Prog {
+    let mut p = Program::default();
+    p.push(None, Stmt::Mem(PcRel::Ld, 0, lbl("levels")));
+    p.push(None, Stmt::Call(lbl("count")));
+    p.push(Some("after"), Stmt::Named(0x25, "halt"));
+    p.push(Some("count"), Stmt::Add(0, 0, Src2::Imm(Lit::dec(-1))));
+    p.push(None, Stmt::Br(0b010, "brz".into(), lbl("done")));
+    p.push(Some("site"), Stmt::Call(lbl("count")));
+    p.push(None, Stmt::Add(1, 1, Src2::Imm(Lit::dec(1))));
+    p.push(Some("done"), Stmt::Rets);
+    p.push(Some("levels"), Stmt::Fill(Lit::hex(levels)));
+    Prog::new("recursion-300-levels", p, true)
 }
 
 pub fn every_kind() -> Prog {
